@@ -20,7 +20,7 @@ import vlib  # noqa: E402
 
 GROUPS = ["int", "real", "dur", "time", "text"]
 TYPE_OF = {"int": "INT", "bits": "WORD", "real": "REAL", "dur": "TIME", "date": "DATE", "tod": "TOD", "dt": "DT", "str": "STRING", "bool": "BOOL"}
-CHAR = {"SP": " ", "LF": "\n", "FF": "\f", "CR": "\r", "TAB": "\t"}
+CHAR = {"SP": " ", "NBSP": "\u00a0", "LF": "\n", "FF": "\f", "CR": "\r", "TAB": "\t"}
 F64_MAX = Fraction(2 ** 1024 - 2 ** 971)
 
 
